@@ -106,10 +106,11 @@ func cmdCheck(args []string) int {
 	}
 
 	type wres struct {
-		out  ShardOut
-		err  error
-		code int
-		log  string
+		out     ShardOut
+		err     error
+		code    int
+		log     string
+		crashed bool
 	}
 	results := make([]wres, workers)
 	var wg sync.WaitGroup
@@ -120,7 +121,7 @@ func cmdCheck(args []string) int {
 			outFile := filepath.Join(tmp, fmt.Sprintf("shard%d.json", i))
 			cmd := exec.Command(self, "worker", "-prop", p.ID, fmt.Sprintf("-quick=%v", quick), "-seed", fmt.Sprint(seed),
 				"-shard", fmt.Sprint(i), "-nshards", fmt.Sprint(workers), "-budget", fmt.Sprintf("%ds", budgetS), "-sweepbudget", fmt.Sprintf("%ds", sweepS),
-				"-out", outFile, "-replaydir", replayDir)
+				"-out", outFile, "-replaydir", replayDir, "-inflight", outFile+".inflight")
 			cmd.Env = append(os.Environ(), "GOMAXPROCS=2")
 			b, err := cmd.CombinedOutput()
 			results[i].log = string(b)
@@ -137,6 +138,23 @@ func cmdCheck(args []string) int {
 			} else if results[i].err == nil {
 				results[i].err = rerr
 				results[i].code = 2
+			} else if strings.Contains(results[i].log, "fatal error:") || strings.Contains(results[i].log, "panic:") {
+				// the worker died in the middle of a run: was it the code under test?
+				if rec, ok := readInflight(outFile + ".inflight"); ok {
+					crashed, summary, frames := crashRun(p.ID, rec.Entry, quick, rec.Seed, rec.Tape, rec.HasTape)
+					if crashed {
+						v := crashViolation(p.ID, summary, frames)
+						rf := &ReplayFile{Property: p.ID, Entry: rec.Entry, Mode: "crash", Seed: seed, RunSeed: rec.Seed, Tape: rec.Tape, Crash: true, CrashTape: rec.HasTape,
+							Violation: v, Env: map[string]string{"tier": map[bool]string{true: "quick", false: "thorough"}[quick]}}
+						name := fmt.Sprintf("%s-crash-%016x.json", p.ID, rec.Seed^uint64(len(rec.Tape)))
+						b, _ := json.MarshalIndent(rf, "", " ")
+						if os.WriteFile(filepath.Join(replayDir, name), b, 0o644) == nil {
+							results[i].out.Violations = append(results[i].out.Violations, filepath.Join(replayDir, name))
+							results[i].err = nil
+							results[i].crashed = true
+						}
+					}
+				}
 			}
 		}(i)
 	}
@@ -393,4 +411,16 @@ func tail(s string, n int) string {
 		l = l[len(l)-n:]
 	}
 	return strings.Join(l, "\n")
+}
+
+func readInflight(path string) (inflightRec, bool) {
+	var rec inflightRec
+	b, err := os.ReadFile(path)
+	if err != nil {
+		return rec, false
+	}
+	if json.Unmarshal([]byte(strings.TrimSpace(string(b))), &rec) != nil || rec.Entry == "" {
+		return rec, false
+	}
+	return rec, true
 }
